@@ -444,6 +444,48 @@ def newBoard (srt : Sorter) (s : State) (q : Req) : State × M Res :=
     if !hasBit q.ulevel PERM_BOARD && !isGroupOp then (s, .ok .notPermitted)
     else mNewbrd srt s q
 
+/-! ### a request served while another process holds `Shm.BBusyState` for the whole call
+
+`getBidByNameCore` only waits a second and bisects anyway; `ResetBoard` waits and returns ErrBusy (ignored on the
+vacated-slot path, an error on the append path — after the record was appended and BNumber incremented);
+`SortBCache` waits and returns without sorting.  Mirrored for the correspondence only: such states are not
+well-formed and no theorem is claimed about them. -/
+
+def addBoardRecordBusy (s : State) (r : Rec) : State × M Res :=
+  match getBid s (zeros 13) with
+  | .error e => (s, .error e)
+  | .ok bid =>
+      if 1 ≤ bid ∧ bid ≤ MAXB then
+        match substIndex bid with
+        | .error e => (s, .error e)
+        | .ok i => (writeRec s i r, .ok (.ok bid))
+      else if s.bnumber ≥ MAXB then (s, .ok .tooMany)
+      else ({ s with brd := s.brd ++ [r], tail := [], bnumber := s.bnumber + 1 }, .ok .io)
+
+def newBoardBusy (s : State) (q : Req) : State × M Res :=
+  if !validBid q.cls then (s, .ok .invalidBid)
+  else if parentChecked && !parentIsClass s.cache q.cls then (s, .ok .invalidBid)
+  else if !hasBit q.ulevel PERM_BOARD && !groupOpOf s.cache q then (s, .ok .notPermitted)
+  else
+  match isValidName q.name with
+  | .error e => (s, .error e)
+  | .ok false => (s, .ok .invalidName)
+  | .ok true =>
+  match getBid s q.name with
+  | .error e => (s, .error e)
+  | .ok b =>
+  if b > 0 then (s, .ok .nameExists)
+  else if !hasLetter s.letters q.name then (s, .ok .mkdirNoent)
+  else if hasDir s.dirs q.name then (s, .ok .mkdirExist)
+  else
+    let dn := cstr q.name
+    let s1 := { s with dirs := s.dirs ++ [dn] }
+    let (s2, r) := addBoardRecordBusy s1 (buildRec q (sanitizeBMs s.users q.bms))
+    match r with
+    | .error e => (s2, .error e)
+    | .ok (.ok bid) => (summaryEffect s2 q bid, .ok (.ok bid))
+    | .ok err => ((if rmdirOnFail then { s2 with dirs := s2.dirs.erase dn } else s2), .ok err)
+
 def run (srt : Sorter) (s : State) : List Req → State
   | [] => s
   | q :: qs => run srt (newBoard srt s q).1 qs
